@@ -12,6 +12,8 @@ CALC_NOTE = ("Trusted base: TLC 1.8, spec/Cron.tla, the system tz database read 
              "A data-shaped property: the spec is the oracle for each call; inputs are enumerated over boundary classes and sampled elsewhere (not exhaustive over all instants).")
 SCH_NOTE = ("Trusted base: TLC 1.8, spec/SchProps.tla / LblProps.tla, the virtual-time loop and clock substitution (wall clock = base + loop time), scripted sources/broker. "
             "Cron schedules in C15 scenarios use minute-field patterns only (calendar semantics are C13's subject); listing latency is not varied.")
+PM_NOTE = ("Trusted base: TLC 1.8, spec/PmProps.tla, the fakes of harness/pm_driver.py (their OS contract: polling/joining a dead child reaps it, os.kill on a reaped pid "
+           "raises ProcessLookupError). Real processes and signals are not used; the file watcher thread is replaced by calling schedule_workers_reload.")
 CHECKS = {
  "C01": ("Receiver.tla model-checked (all interleavings of prefetcher/runner/look-ahead fetch/callbacks, every stop instant) + clauses C01_* of RxProps evaluated by TLC on every prefix of traces recorded from the real Receiver.listen(); conformance of those traces to the model", "5/C01"),
  "C02": ("pipeline model (one action per real suspension) model-checked for 3 ack types x sync/async ack x outcomes x backend failure; clauses C02_* judged on every prefix (= crash point) of real traces", "5/C02"),
@@ -27,6 +29,8 @@ CHECKS = {
  "C14": ("delay specified as a relation (DelayOK) over split instants; boundary lattice (second-of-minute x microsecond x T-now offsets around now, horizon, +-2 days) x zone spellings + random pairs, each real call judged by TLC", "5/C14"),
  "C15": ("scheduler loop model (poll rounds as the code's atomic blocks, look-ahead, in-flight sends, faults; 12-unit minute) model-checked over all start offsets x one-shot target times x fault placements; SchProps clauses evaluated by TLC on traces of the real run_scheduler_loop on the virtual clock (real 60 s minutes, start offsets at ms resolution, 2-30 virtual minutes, dynamic add/remove, failing sources/kicks)", "5/C15"),
  "C16": ("on_ready stage counters (pre_send/cancel/kick payload/post_send) on the same scheduler traces + LabelScheduleSource entry-table model (LabelSrc.tla) model-checked over all entry lists <= 3-4 and firing orders; listing/removal clauses (LblProps) on the real source", "5/C16"),
+ "C17": ("process-manager state machine (sleep / drain / scan, action queue, two injection points per tick) model-checked over all histories up to the tick bound; C17 clauses (join before replacement start, slot count, replaced within two ticks) on traces of the real ProcessManager.start() with OS-faithful fakes", "5/C17"),
+ "C18": ("same model; budget (exit -1 exactly when max_fails unexpected exits were handled), reload-all (every slot once per tick) and shutdown (live workers signalled once, nothing else, success status) clauses on real traces", "5/C18"),
  "C12": ("dependency open/close order modelled after the resolver; C12_* clauses on real traces for all shapes up to 3 teardown-style dependencies; KF-C12-1 classified by signature", "5/C12"),
 }
 PENDING = {
@@ -53,7 +57,7 @@ def main():
             "replay_cmd_template": f"./check {pid} --replay {{path}}",
             "engine": "tlc-model+trace",
             "level_claimed": {"category": "model_checking", "text": text, "design_ref": ref},
-            "level_note": RX_NOTE if pid in ("C01","C02","C03","C04","C05","C06","C07","C10","C12") else (CALC_NOTE if pid in ("C13","C14") else (SCH_NOTE if pid in ("C15","C16") else CL_NOTE)),
+            "level_note": RX_NOTE if pid in ("C01","C02","C03","C04","C05","C06","C07","C10","C12") else (CALC_NOTE if pid in ("C13","C14") else (SCH_NOTE if pid in ("C15","C16") else (PM_NOTE if pid in ("C17","C18") else CL_NOTE))),
             "technique": "explicit TLA+ spec checked by TLC; verdict = spec property clauses evaluated by TLC on traces recorded from the real code; trace conformance to the spec",
         })
     man = {
